@@ -45,6 +45,7 @@ P_ABCOLOR = "{http://inf-it.com/ns/ab/}addressbook-color"
 P_REFRESH = "{http://calendarserver.org/ns/}refreshrate"
 P_SOURCE = "{http://calendarserver.org/ns/}source"
 
+EMPTY_TREE = "4b825dc642cb6eb9a060e54bf8d69288fbee4904"
 RT_COLL = "{DAV:}collection"
 RT_CAL = "{urn:ietf:params:xml:ns:caldav}calendar"
 RT_AB = "{urn:ietf:params:xml:ns:carddav}addressbook"
@@ -568,6 +569,10 @@ class Runner:
         elif kind == "addressbook-query":
             body = dav.abquery_body(st.get("filter"))
         elif kind == "sync":
+            if "sync" in self.obs:
+                self.last = {"op": "REPORT", "coll": coll, "ack": False}
+                self.sync_report(st)
+                return set()
             body = dav.sync_body(st.get("token", ""))
         else:
             raise ValueError(kind)
@@ -912,6 +917,152 @@ class Runner:
                     self.violation("git", "fsck", f"{coll}: git fsck exit {rc}: {msgs[:5]}")
                 self.stats["git:fsck-checked"] += 1
         self.git_heads = new
+
+
+    # -- C07: sync-collection ------------------------------------------------------
+    def read_sync_token(self, coll, fe="wsgi"):
+        r = self.req(fe, "PROPFIND", coll + "/", [("Depth", "0"), dav.XML_CT], dav.propfind_body([P_SYNC]))
+        ms = dav.parse_ms(r)
+        if ms is None or not ms.responses:
+            self.violation("sync", "token-propfind-failed", f"PROPFIND sync-token on {coll}: {r.status} {r.exc or r.body[:200]!r}")
+        return ms.responses[0].prop_text(P_SYNC)
+
+    def obs_sync(self, step):
+        """Record the token and the member->ETag snapshot of every collection after every step."""
+        self.sync_inc = getattr(self, "sync_inc", collections.Counter())
+        for coll, mc in self.model.colls.items():
+            if getattr(mc, "_sinc", None) is None:
+                self.sync_inc[coll] += 1
+                mc._sinc = self.sync_inc[coll]
+            tok = self.read_sync_token(coll)
+            snap = {n: self.cur_etag.get((coll, n)) for n in mc.members}
+            self.sync_tokens[(coll, mc._sinc)].append((tok, snap, self.step_no))
+
+    def sync_report(self, st):
+        """Executed for REPORT steps with kind == 'sync' when the sync observer is on."""
+        coll = SLOTS[st["coll"]]
+        mc = self.model.colls.get(coll)
+        spec = st.get("tok") or {"kind": "empty"}
+        fe = st["fe"]
+        if mc is None:
+            return
+        inc = getattr(mc, "_sinc", None)
+        hist = self.sync_tokens.get((coll, inc), []) if inc else []
+        kind = spec["kind"]
+        issued = {t for t, _, _ in hist}
+        snap_i = None
+        idx = None
+        if kind == "issued" and hist:
+            idx = spec.get("k", 0) % len(hist)
+            token, snap_i, _ = hist[idx]
+        elif kind == "current" and hist:
+            idx = len(hist) - 1
+            token, snap_i, _ = hist[-1]
+        elif kind == "empty" or not hist and kind in ("issued", "current"):
+            kind = "empty"
+            token = ""
+        else:
+            kind = "foreign"
+            fk = spec.get("f", "random")
+            if fk == "other-coll":
+                others = [h[-1][0] for (c, i), h in self.sync_tokens.items() if c != coll and h]
+                token = others[spec.get("k", 0) % len(others)] if others else "1" * 40
+            elif fk == "blob":
+                ets = sorted(e.strip('"') for (c, n), e in self.cur_etag.items() if e)
+                token = ets[spec.get("k", 0) % len(ets)] if ets else "2" * 40
+            elif fk == "commit":
+                heads = getattr(self, "git_heads", {})
+                token = "3" * 40
+                try:
+                    rc, out, err = self.git(self.world.fs_path(coll), "rev-parse", "-q", "--verify", "HEAD")
+                    if rc == 0:
+                        token = out.decode().strip()
+                except Exception:
+                    pass
+            elif fk == "nonhex":
+                token = "not-a-token"
+            elif fk == "long":
+                token = "ab" * 300
+            elif fk == "nonascii":
+                token = "tökén-日"
+            elif fk == "uri":
+                token = "http://example.com/sync/1234"
+            else:
+                token = hashlib.sha1(("foreign" + str(spec.get("k", 0))).encode()).hexdigest()
+            if token in issued:
+                return  # coincides with a token this collection did issue
+            if token == EMPTY_TREE:
+                # the id of the empty tree denotes a well-defined state (no members); the server may
+                # refuse it or answer the correct difference from the empty state - checked as 'empty'
+                self.stats["sync:foreign-empty-tree"] += 1
+                return
+        r = self.req(fe, "REPORT", coll + "/", [("Depth", "1"), dav.XML_CT], dav.sync_body(token))
+        self.stats["sync:" + kind] += 1
+        if kind == "foreign":
+            ok_error = r.status >= 400
+            ms = dav.parse_ms(r) if r.status == 207 else None
+            if ms is not None:
+                ok_error = ms.has_error() and not ms.has_sync_token
+            if r.status >= 500:
+                self.stats["sync:foreign-5xx"] += 1
+            if not ok_error:
+                self.violation("sync", "foreign-token-accepted", f"sync-collection on {coll} with never-issued token {token!r} ({spec}) answered {r.status} {r.body[:300]!r}")
+            self.sync_nontrivial = getattr(self, "sync_nontrivial", set())
+            return
+        ms = dav.parse_ms(r)
+        if ms is None or ms.has_error() and all(x.status != 404 for x in ms.responses if x.status):
+            self.violation("sync", "report-failed", f"sync-collection on {coll} with issued token {token!r} answered {r.status} {r.exc or r.body[:300]!r}")
+        cur = {n: self.cur_etag.get((coll, n)) for n in mc.members}
+        old = snap_i or {}
+        exp_changed = {n for n in cur if n not in old or old[n] != cur[n]}
+        exp_removed = {n for n in old if n not in cur}
+        got_changed = {}
+        got_removed = set()
+        for resp in ms.responses:
+            n = name_from_href(resp.href)
+            if resp.status == 404:
+                if n in got_removed:
+                    self.violation("sync", "duplicate-response", f"{coll}: {n!r} reported twice")
+                got_removed.add(n)
+            else:
+                if n in got_changed:
+                    self.violation("sync", "duplicate-response", f"{coll}: {n!r} reported twice")
+                got_changed[n] = resp.prop_text(P_ETAG)
+        desc = f"sync-collection on {coll} from token {token!r} (issued after step {hist[idx][2] if idx is not None else 'n/a'}, kind {kind})"
+        if set(got_changed) != exp_changed:
+            self.violation("sync", "changed-set", f"{desc}: reported changed {sorted(got_changed)} expected {sorted(exp_changed)}")
+        if got_removed != exp_removed:
+            self.violation("sync", "removed-set", f"{desc}: reported removed {sorted(got_removed)} expected {sorted(exp_removed)}")
+        for n, e in got_changed.items():
+            if e != cur[n]:
+                self.violation("sync", "etag", f"{desc}: {n!r} reported with ETag {e}, current is {cur[n]}")
+        if not ms.has_sync_token:
+            self.violation("sync", "no-token", f"{desc}: the answer carries no sync-token")
+        now = self.read_sync_token(coll)
+        if ms.sync_token != now:
+            self.violation("sync", "returned-token", f"{desc}: returned token {ms.sync_token!r} but DAV:sync-token is {now!r}")
+        # replica: apply to state i -> must be state j
+        replica = dict(old)
+        for n in got_removed:
+            replica.pop(n, None)
+        replica.update(got_changed)
+        if replica != cur:
+            self.violation("sync", "replica-diverges", f"{desc}: replica {replica} != current {cur}")
+        # non-triviality: between i and j some name was deleted and re-created, or reverted
+        if idx is not None:
+            seqs = []
+            for n in set().union(*[set(h[1]) for h in hist[idx:]] or [set()]):
+                seq = []
+                for _, snap, _ in hist[idx:]:
+                    v = snap.get(n)
+                    if not seq or seq[-1] != v:
+                        seq.append(v)
+                if len(seq) >= 3 and (None in seq[1:-1] or len(set(seq)) < len(seq)):
+                    seqs.append((n, tuple(seq)))
+            if seqs and idx < len(hist) - 1:
+                self.sync_nontrivial = getattr(self, "sync_nontrivial", set())
+                self.sync_nontrivial.add(hashlib.sha1(repr((idx, len(hist), sorted(seqs))).encode()).hexdigest())
+                self.stats["sync:nontrivial"] += 1
 
     # -- the content audit (C01 oracle) ---------------------------------------
     LIST_PROPS = [P_ETAG, P_RT]
